@@ -180,6 +180,24 @@ def f30_witnesses(rng, r, count):
     return out
 
 
+def large_top_coincidence(rng, r, n):
+    """Running dividends of the > 32-limb encoder whose leading limbs EQUAL those of the large divisor L = r^digits_large
+    (the quotient's top limb is then 1 or 0 depending on the limbs below): L * 2^(64 j) + e for e in {0, 1, noise, -1}, the same
+    one level down (inside the quotient of the first pass), and a leading limb equal to L's with smaller limbs below."""
+    k, D, s, dl, L = params(r)
+    M = 1 << (64 * n)
+    ll = nlimbs(L)
+    top = L >> (64 * (ll - 1))
+    vs = []
+    for j in sorted(set([1, n - ll, max(1, (n - ll) // 2)] + [rng.randrange(1, n - ll + 1)])):
+        if j < 1 or ll + j > n: continue
+        sh = 64 * j
+        vs += [L << sh, (L << sh) + 1, (L << sh) - 1, (L << sh) + rng.getrandbits(sh), (L << sh) + L,
+               (top << (64 * (ll - 1 + j))) + rng.getrandbits(64 * (ll - 1 + j) - 1)]
+    if L * L < M:
+        vs += [L * L, L * L + 1, L * L - 1, (L * L) << (64 * rng.randrange(0, max(1, n - 2 * ll + 1))) if 2 * ll <= n else L * L]
+    return [v for v in vs if 0 <= v < M]
+
 def format_values(rng, r, n):
     k, D, s, dl, L = params(r)
     M = 1 << (64 * n)
@@ -221,6 +239,8 @@ def gen(tier, rng):
                 vals = rng.sample(vals, min(len(vals), 14 * scale)) + [0, (1 << (64 * n)) - 1]
             vals += [value(rng, n) for _ in range(3 * scale)]
             vals += [v for v in hi_boundary(rng, r, 6 * scale) + f30_witnesses(rng, r, 6 * scale) if v < (1 << (64 * n))]
+            if n > 32:
+                vals += large_top_coincidence(rng, r, n)
             for i, v in enumerate(vals):
                 A = to_limbs(v, n)
                 add(Case('uint.to_string_radix', [A, R], mop='uint.to_string_radix', dbg=(i % 3 == 0)))
@@ -242,6 +262,7 @@ def gen(tier, rng):
             hb = hi_boundary(rng, r, 5 * scale) + f30_witnesses(rng, r, 5 * scale)
             vals += [v for v in hb if v < (1 << (64 * n))]
             if n > 32:
+                vals += large_top_coincidence(rng, r, n)
                 # the witness inside the 32-limb remainder of the large-divisor loop
                 for w in hb:
                     if w < L:
